@@ -514,6 +514,13 @@ func (r *PipelineRunner) JobCompleted(id uuid.UUID, err error) {
 			}
 		}
 	}
+	// The error of a canceled task is not returned by the scheduler if the task allows failure
+	for _, jt := range job.Tasks {
+		if jt.Canceled {
+			job.Canceled = true
+			break
+		}
+	}
 
 	pipeline := job.Pipeline
 	log.
